@@ -99,6 +99,20 @@ pub struct Short(u16);
 #[archive(check_bytes)]
 pub struct Arr5([u8; 5]);
 
+/// A message whose frame can have any size that is a multiple of four (data, padding to 4, an 8-byte root, the checksum).
+#[repr(C)]
+#[derive(Serialize, Deserialize, Archive, PartialEq, Debug, Clone)]
+#[archive(check_bytes)]
+pub struct Blob {
+    data: Vec<u8>,
+}
+
+/// A message of alignment 1 whose frame has exactly N + 4 bytes.
+#[repr(C)]
+#[derive(Serialize, Deserialize, Archive, PartialEq, Debug, Clone)]
+#[archive(check_bytes)]
+pub struct ArrN<const N: usize>([u8; N]);
+
 fn verdict<T>(buf: &[u8]) -> &'static str
 where
     T: Archive,
@@ -179,6 +193,15 @@ impl RpcService for Echo {
         registry.add_handler::<Flag>();
         registry.add_handler::<Short>();
         registry.add_handler::<Arr5>();
+        registry.add_handler::<Blob>();
+        registry.add_handler::<ArrN<16381>>();
+        registry.add_handler::<ArrN<16382>>();
+        registry.add_handler::<ArrN<16383>>();
+        registry.add_handler::<ArrN<32765>>();
+        registry.add_handler::<ArrN<65532>>();
+        registry.add_handler::<ArrN<65533>>();
+        registry.add_handler::<ArrN<65534>>();
+        registry.add_handler::<ArrN<65535>>();
     }
 }
 
@@ -201,6 +224,17 @@ echo_handler!(Tiny);
 echo_handler!(Flag);
 echo_handler!(Short);
 echo_handler!(Arr5);
+echo_handler!(Blob);
+
+#[datacake_rpc::async_trait]
+impl<const N: usize> Handler<ArrN<N>> for Echo {
+    type Reply = ArrN<N>;
+    async fn on_message(&self, msg: Request<ArrN<N>>) -> Result<Self::Reply, Status> {
+        self.runs.fetch_add(1, Ordering::SeqCst);
+        let v: ArrN<N> = msg.deserialize_view().map_err(|_| Status::internal("deserialize"))?;
+        Ok(v)
+    }
+}
 
 #[datacake_rpc::async_trait]
 impl Handler<WithVec> for Echo {
@@ -489,6 +523,57 @@ pub async fn record() {
     small_rt!(Flag, "Flag", flags);
     small_rt!(Short, "Short", shorts);
     small_rt!(Arr5, "Arr5", arrs);
+    // frames whose size sits on the boundaries of the transport underneath (HTTP/2 DATA frames of 16 384 bytes, the initial
+    // flow-control window of 65 535 bytes, their multiples): every multiple of four around them, and sizes that leave one to
+    // three bytes behind a boundary; request and reply have the same size; once on a connection of its own, once on the shared one
+    {
+        let mut lens: Vec<usize> = vec![];
+        for b in [16_384usize, 32_768, 49_152, 65_536, 131_072, 1 << 20] {
+            for f in (b - 20..=b + 20).filter(|f| f % 4 == 0) {
+                lens.push(f - 12);
+            }
+        }
+        for (i, len) in lens.iter().enumerate() {
+            let v = Blob { data: (0..*len).map(|j| ((j * 13 + i) % 251) as u8).collect() };
+            for fresh in [true, false] {
+                let own = RpcClient::<Echo>::new(Channel::connect(addr));
+                let before = runs.load(Ordering::SeqCst);
+                let r = if fresh { own.send(&v).await } else { next_client().send(&v).await };
+                let after = runs.load(Ordering::SeqCst);
+                let same = matches!(&r, Ok(view) if view.deserialize_view().map(|b: Blob| b == v).unwrap_or(false));
+                rt += 1;
+                writeln!(f, "{}", json!({"ev": "roundtrip", "type": "Blob", "sent": format!("frame of {} bytes, {}", len + 12, if fresh { "own connection" } else { "shared connection" }),
+                                         "ok": r.is_ok(), "replyEqualsSent": same, "handlerRuns": after - before})).unwrap();
+            }
+        }
+        macro_rules! arr_rt {
+            ($n:expr) => {
+                let mut a = [0u8; $n];
+                for (j, x) in a.iter_mut().enumerate() {
+                    *x = (j % 249) as u8;
+                }
+                let v = ArrN::<$n>(a);
+                for fresh in [true, false] {
+                    let own = RpcClient::<Echo>::new(Channel::connect(addr));
+                    let before = runs.load(Ordering::SeqCst);
+                    let r = if fresh { own.send(&v).await } else { next_client().send(&v).await };
+                    let after = runs.load(Ordering::SeqCst);
+                    let same = matches!(&r, Ok(view) if view.deserialize_view().map(|b: ArrN<$n>| b == v).unwrap_or(false));
+                    rt += 1;
+                    writeln!(f, "{}", json!({"ev": "roundtrip", "type": "ArrN", "sent": format!("frame of {} bytes, {}", $n + 4, if fresh { "own connection" } else { "shared connection" }),
+                                             "ok": r.is_ok(), "replyEqualsSent": same, "handlerRuns": after - before})).unwrap();
+                }
+            };
+        }
+        arr_rt!(16381);
+        arr_rt!(16382);
+        arr_rt!(16383);
+        arr_rt!(32765);
+        arr_rt!(65532);
+        arr_rt!(65533);
+        arr_rt!(65534);
+        arr_rt!(65535);
+    }
     // replies that are raw bodies (streamed, not framed): the client reads exactly the bytes the handler produced
     {
         let raw_client = RpcClient::<RawEcho>::new(Channel::connect(addr));
